@@ -671,4 +671,179 @@ Section Parse.
       rewrite E. reflexivity.
     - clear - Hf. fuel_tac.
   Qed.
+
+  (* ---- GSUB1 ---- *)
+  Lemma rgl_range : forall f fl l fuel t0 rest,
+    f < fl -> fl < num_glyphs F -> is_stop (ttyp t0) = true -> (3 < fuel)%nat ->
+    read_glyph_list F endl fuel (name_tok F f l :: t_hyphen l :: name_tok F fl l :: t0 :: rest)
+    = POk (seq_up f (S (N.to_nat (fl - f))), t0 :: rest).
+  Proof.
+    intros f fl l fuel t0 rest Hlt Hfl Hs Hf. destruct HF_all as (Hnum & _).
+    destruct fuel as [|[|[|[|fu]]]]; try lia. unfold read_glyph_list.
+    rewrite (rgl_next _ _ _ _ _ [f] [f] false); [|apply classify_name_tok; lia|reflexivity].
+    assert (Eh : read_glyph_list_loop F endl (S (S (S fu))) [f] false (t_hyphen l :: name_tok F fl l :: t0 :: rest)
+                 = read_glyph_list_loop F endl (S (S fu)) [f] true (name_tok F fl l :: t0 :: rest)) by reflexivity.
+    rewrite Eh.
+    rewrite (rgl_next _ _ _ _ _ [fl] (seq_up f (S (N.to_nat (fl - f)))) false); [|apply classify_name_tok; lia|].
+    - apply rgl_done; auto.
+    - cbn [add_gids]. unfold last_opt. cbn [rev app]. unfold range_to.
+      assert (E1 : (fl <? f) = false) by lia. assert (E2 : (f <? fl) = true) by lia.
+      assert (E3 : (fl =? 65535) = false) by lia. rewrite E1, E2, E3. reflexivity.
+  Qed.
+
+  Definition pair_ok (p : N * N) : Prop := fst p < num_glyphs F /\ snd p < num_glyphs F.
+
+  Lemma seq1_toks_false : forall k e mm l,
+    seq1_toks U F (S k) (e :: mm) false l = t_comma l :: seq1_toks U F (S k) (e :: mm) true l.
+  Proof. intros k [f t] mm l. reflexivity. Qed.
+
+  Lemma seq1_toks_head : forall k e mm l, exists t ts,
+    seq1_toks U F (S k) (e :: mm) true l = t :: ts /\ after_flags t = true.
+  Proof.
+    intros k [f t] mm l. cbn [seq1_toks app].
+    destruct (2 <? _)%nat.
+    - destruct (nth _ _ _). cbn [app]. eexists. eexists. split; [reflexivity|apply after_flags_name_tok].
+    - cbn [app]. eexists. eexists. split; [reflexivity|apply after_flags_glyph_tok].
+  Qed.
+
+  Lemma pair_ok_bound : forall mm, Forall pair_ok mm -> Forall (fun p => fst p < 65535 /\ snd p < 65535) mm.
+  Proof.
+    intros mm H. destruct HF_all as (Hnum & _). eapply Forall_impl; [|exact H].
+    intros p [A B]. lia.
+  Qed.
+
+  Lemma gsub1_loop_ok : forall k mm l fuel res t0 rest,
+    mm <> [] -> (length mm <= k)%nat ->
+    ascending (map fst mm) -> Forall pair_ok mm ->
+    (forall d e, In d res -> In e mm -> fst d < fst e) ->
+    ends_list t0 = true ->
+    (length (seq1_toks U F k mm true l ++ t0 :: rest) < fuel)%nat ->
+    gsub1_loop F endl fuel res (seq1_toks U F k mm true l ++ t0 :: rest) = POk (res ++ mm, t0 :: rest).
+  Proof.
+    induction k as [|k IH]; intros mm l fuel res t0 rest Hn Hk Ha Hm Hres Ht Hf.
+    { destruct mm; [congruence|cbn in Hk; lia]. }
+    destruct mm as [|[f t] rest']; [congruence|].
+    destruct fuel as [|fu]; [cbn in Hf; lia|].
+    destruct (ends_list_props _ Ht) as (Hstop & Hnc & Hne).
+    inversion Hm as [|? ? Hft Hrest]; subst. destruct Hft as [Hfn Htn]. cbn [fst snd] in Hfn, Htn.
+    pose proof (pair_ok_bound _ Hm) as Hb. inversion Hb as [|? ? Hb1 Hb2]; subst.
+    cbn [fst snd] in Hb1. destruct Hb1 as [Hf5 Ht5].
+    assert (Hkey : has_key f res = false).
+    { unfold has_key. rewrite assoc_none_lt; auto. apply Forall_forall. intros d Hd.
+      apply (Hres d (f, t)); auto. left. reflexivity. }
+    (* what happens after one mapping has been read: either the list ends,
+       or a comma and the remaining mappings follow *)
+    assert (Hcont : forall mm' res', (length mm' <= k)%nat ->
+              ascending (map fst mm') -> Forall pair_ok mm' ->
+              (forall d e, In d res' -> In e mm' -> fst d < fst e) ->
+              res' ++ mm' = res ++ (f, t) :: rest' ->
+              (length (seq1_toks U F k mm' false l ++ t0 :: rest) < fu)%nat ->
+              (b <- optional endl TComma ;;
+               if b then (optional endl TEOL ;;; gsub1_loop F endl fu res') else ret res')
+                (seq1_toks U F k mm' false l ++ t0 :: rest)
+              = POk (res ++ (f, t) :: rest', t0 :: rest)).
+    { intros mm' res' Hk' Ha' Hm' Hres' Eres Hf'. destruct mm' as [|e' mm''].
+      - assert (Es : seq1_toks U F k [] false l = []) by (destruct k; reflexivity).
+        rewrite Es. cbn [app]. unfold bind at 1. rewrite optional_miss by auto.
+        rewrite app_nil_r in Eres. rewrite Eres. reflexivity.
+      - destruct k as [|k']; [cbn in Hk'; lia|].
+        rewrite seq1_toks_false in *. cbn [app]. unfold bind at 1. rewrite optional_hit by reflexivity.
+        unfold bind at 1.
+        destruct (seq1_toks_head k' e' mm'' l) as (th & tts & Eh & Ah).
+        destruct (after_flags_props _ Ah) as [A1 A2].
+        assert (Eo : optional endl TEOL (seq1_toks U F (S k') (e' :: mm'') true l ++ t0 :: rest)
+                     = POk (false, seq1_toks U F (S k') (e' :: mm'') true l ++ t0 :: rest)).
+        { rewrite Eh. cbn [app]. apply optional_miss; auto. }
+        rewrite Eo. rewrite (IH (e' :: mm'') l fu res' t0 rest); auto.
+        + rewrite Eres. reflexivity.
+        + discriminate.
+        + clear - Hf'. fuel_tac. }
+    cbn [seq1_toks gsub1_loop].
+    set (rl := if (2 <? length ((f, t) :: rest'))%nat then S (run_len f rest' (delta16 f t)) else 1%nat) in *.
+    cbn [app]. destruct (2 <? rl)%nat eqn:Erl.
+    - (* a range *)
+      assert (Erl' : rl = S (run_len f rest' (delta16 f t))).
+      { unfold rl in *. destruct (2 <? length ((f, t) :: rest'))%nat; auto. cbn in Erl. discriminate. }
+      set (n := run_len f rest' (delta16 f t)) in *.
+      pose proof (firstn_run rest' f t Hf5 Ht5 Hb2) as Hfr. cbv zeta in Hfr. fold n in Hfr. rewrite <- Erl' in Hfr.
+      pose proof (run_len_le rest' f (delta16 f t)) as Hle. fold n in Hle.
+      assert (En : nth (rl - 1) ((f, t) :: rest') (f, t) = (f + N.of_nat n, t + N.of_nat n)).
+      { rewrite <- (nth_firstn_lt _ (rl - 1) rl) by lia. rewrite Hfr.
+        rewrite nth_seq_up_combine by lia. f_equal; f_equal; lia. }
+      rewrite En.
+      assert (Hin : In (f + N.of_nat n, t + N.of_nat n) ((f, t) :: rest')).
+      { rewrite <- En. apply nth_In. cbn [length]. lia. }
+      rewrite Forall_forall in Hm. destruct (Hm _ Hin) as [Hfl Htl]. cbn [fst snd] in Hfl, Htl.
+      assert (Hn2 : (2 <= n)%nat) by (apply Nat.ltb_lt in Erl; lia).
+      cbn [app]. unfold bind at 1.
+      rewrite rgl_range; [|lia|auto|reflexivity|clear - Hf; cbn [length] in Hf; fuel_tac].
+      unfold bind at 1. rewrite required_hit by reflexivity.
+      unfold bind at 1.
+      assert (Esk : seq1_toks U F k (skipn rl ((f, t) :: rest')) false l ++ t0 :: rest
+                    = match seq1_toks U F k (skipn rl ((f, t) :: rest')) false l ++ t0 :: rest with
+                      | x :: r => x :: r | [] => [] end) by (destruct (_ ++ _); reflexivity).
+      assert (Hstop' : exists tn tsn, seq1_toks U F k (skipn rl ((f, t) :: rest')) false l ++ t0 :: rest = tn :: tsn
+                                      /\ is_stop (ttyp tn) = true).
+      { destruct (skipn rl ((f, t) :: rest')) as [|e' mm''] eqn:Es.
+        - assert (E0 : seq1_toks U F k [] false l = []) by (destruct k; reflexivity). rewrite E0. cbn [app]. eauto.
+        - destruct k as [|k'].
+          + exfalso. assert (L : (length (skipn rl ((f, t) :: rest')) <= 0)%nat).
+            { rewrite skipn_length. cbn [length] in *. lia. }
+            rewrite Es in L. cbn in L. lia.
+          + rewrite seq1_toks_false. cbn [app]. eexists. eexists. split; reflexivity. }
+      destruct Hstop' as (tn & tsn & Etn & Hstn). rewrite Etn.
+      rewrite rgl_range; [|lia|auto|auto|clear - Hf Etn; cbn [length] in Hf; rewrite !app_length in Hf;
+                                         cbn [length] in Hf; rewrite <- app_length in Hf; rewrite Etn in Hf;
+                                         cbn [length] in Hf; lia].
+      rewrite <- Etn.
+      replace (N.to_nat (f + N.of_nat n - f)) with n by lia.
+      replace (N.to_nat (t + N.of_nat n - t)) with n by lia.
+      rewrite !seq_up_length. rewrite Nat.eqb_refl. cbn [negb].
+      rewrite <- Erl'. rewrite add_pairs_asc.
+      + rewrite <- Hfr. apply Hcont.
+        * rewrite skipn_length. cbn [length] in *. lia.
+        * rewrite <- (firstn_skipn rl ((f, t) :: rest')) in Ha. rewrite map_app in Ha.
+          eapply ascending_app_r; eauto.
+        * apply Forall_forall. intros x Hx. apply Hm.
+          rewrite <- (firstn_skipn rl ((f, t) :: rest')). apply in_or_app. right. exact Hx.
+        * intros d e Hd He. apply in_app_or in Hd. destruct Hd as [Hd|Hd].
+          -- apply Hres; auto. rewrite <- (firstn_skipn rl ((f, t) :: rest')). apply in_or_app. right. exact He.
+          -- rewrite <- (firstn_skipn rl ((f, t) :: rest')) in Ha. rewrite map_app in Ha.
+             apply (ascending_app_lt _ _ Ha); apply in_map; auto.
+        * rewrite <- app_assoc. rewrite firstn_skipn. reflexivity.
+        * clear - Hf. cbn [length] in Hf. fuel_tac.
+      + rewrite !seq_up_length. reflexivity.
+      + apply seq_up_ascending.
+      + intros x Hx. apply Forall_forall. intros d Hd.
+        assert (Hin' : In x (map fst (firstn rl ((f, t) :: rest')))).
+        { rewrite Hfr. rewrite map_fst_combine by (rewrite !seq_up_length; reflexivity). exact Hx. }
+        apply in_map_iff in Hin'. destruct Hin' as (e & Ee & Hine). subst x.
+        apply Hres; auto. apply (firstn_In _ rl). exact Hine.
+    - (* a single mapping *)
+      cbn [app]. unfold bind at 1.
+      destruct fu as [|fu]; [exfalso; clear - Hf; cbn [length] in Hf; fuel_tac|].
+      rewrite rgl_one by (auto; reflexivity).
+      unfold bind at 1. rewrite required_hit by reflexivity.
+      unfold bind at 1.
+      assert (Hstop' : exists tn tsn, seq1_toks U F k rest' false l ++ t0 :: rest = tn :: tsn
+                                      /\ is_stop (ttyp tn) = true).
+      { destruct rest' as [|e' mm''].
+        - assert (E0 : seq1_toks U F k [] false l = []) by (destruct k; reflexivity). rewrite E0. cbn [app]. eauto.
+        - destruct k as [|k']; [cbn in Hk; lia|].
+          rewrite seq1_toks_false. cbn [app]. eexists. eexists. split; reflexivity. }
+      destruct Hstop' as (tn & tsn & Etn & Hstn). rewrite Etn.
+      rewrite rgl_one by auto. rewrite <- Etn.
+      cbn [length Nat.eqb negb add_pairs]. rewrite Hkey.
+      apply Hcont.
+      + cbn [length] in Hk. lia.
+      + apply (ascending_tail f). exact Ha.
+      + exact Hrest.
+      + intros d e Hd He. apply in_app_or in Hd. destruct Hd as [Hd|Hd].
+        * apply Hres; auto. right. exact He.
+        * destruct Hd as [Hd|[]]. subst d. cbn [fst].
+          pose proof (ascending_lt_all _ _ Ha) as HL. rewrite Forall_forall in HL. apply HL.
+          apply in_map. exact He.
+      + rewrite <- app_assoc. reflexivity.
+      + clear - Hf. cbn [length] in Hf. fuel_tac.
+  Qed.
 End Parse.
